@@ -335,13 +335,150 @@ def post(case, raw):
     return terms
 
 
+
+# ------------------------------------------------------------------------------------------
+# slotted page stream (storage/core/buffer.rs against Model/Slotted.v)
+# ------------------------------------------------------------------------------------------
+CHDR, PHDR = 32, 80      # checked on every run: the harness prints the capacity it got, the model the one computed from these
+
+
+def _plen(ln):
+    return (max(ln, 8) + 7) // 8 * 8
+
+
+def gen_slot(rng, tier):
+    out = []
+    lens = [8, 13, 16, 24, 40, 64, 100, 200, 333, 500, 1000, 1900]
+    for k in range(150 if tier == "quick" else 4000):
+        page = rng.choice([4096, 4096, 4096, 8192])
+        cap = page - PHDR
+        maxp = (cap - CHDR - 2) // 8 * 8
+        profile = rng.choice(["fill", "churn", "mixed", "mixed", "small"])
+        cells, nid = [], [1]
+        rust, coq = [], []
+
+        def fs():
+            return cap - 2 * len(cells) - sum(CHDR + l for _, l in cells)
+
+        def new_len():
+            if profile == "small":
+                return rng.choice(lens[:6])
+            if rng.random() < 0.04:
+                return rng.choice([maxp - 8, maxp, maxp + 1, maxp + 8, maxp + 200])
+            return rng.choice(lens)
+
+        for _ in range(rng.choice([20, 50, 120])):
+            r = rng.random()
+            n = len(cells)
+            if profile == "fill":
+                r = r * 0.6
+            if r < 0.45 or n == 0:
+                i = rng.randint(0, n) if rng.random() < 0.95 else n + rng.randint(1, 2)
+                ln = new_len(); pl = _plen(ln); cid = nid[0]; nid[0] += 1
+                rust.append("i:%d:%d:%d" % (i, cid, ln)); coq.append("OInsert %d%%nat (mkCell %d %d)" % (i, cid, pl))
+                if pl <= maxp and i <= n and CHDR + pl + 2 <= fs():
+                    cells.insert(i, (cid, pl))
+            elif r < 0.65:
+                i = rng.randrange(n) if rng.random() < 0.95 else n + rng.randint(0, 2)
+                rust.append("r:%d" % i); coq.append("ORemove %d%%nat" % i)
+                if i < n:
+                    cells.pop(i)
+            elif r < 0.9:
+                i = rng.randrange(n) if rng.random() < 0.97 else n + rng.randint(0, 1)
+                ln = new_len(); pl = _plen(ln); cid = nid[0]; nid[0] += 1
+                rust.append("p:%d:%d:%d" % (i, cid, ln)); coq.append("OReplace %d%%nat (mkCell %d %d)" % (i, cid, pl))
+                if i < n and fs() + CHDR + cells[i][1] >= CHDR + pl and pl <= maxp:
+                    cells[i] = (cid, pl)
+            elif r < 0.96:
+                rust.append("D"); coq.append("ODefrag")
+            else:
+                rust.append("A"); coq.append("ODrain"); cells = []
+        out.append(Case("slot %d %s" % (page, " ".join(rust)), "(%d, %d, %d, [%s])" % (CHDR, PHDR, cap, "; ".join(coq)), "slot",
+                        {"classes": [], "cap": cap}))
+    return out
+
+
+def oracle_slot(case, il):
+    """independent of the model: the answers follow a python list; after every operation the page lists exactly that list,
+    the cells lie inside [free-space pointer, capacity) without overlapping each other or the slot array, the free-space counter
+    is capacity - 2*slots - sum of cell sizes, and an insert is refused for lack of space only when the cell does not fit that counter"""
+    toks = il.split(" ")
+    ops = case.rust.split(" ")[2:]
+    if not toks or not toks[0].startswith("cap"):
+        return "no capacity line"
+    cap = int(toks[0][3:])
+    if cap != case.meta["cap"]:
+        return "capacity %d, expected page size - header = %d" % (cap, case.meta["cap"])
+    maxp = (cap - CHDR - 2) // 8 * 8
+    if len(toks) - 1 != len(ops):
+        return "%d answers for %d operations" % (len(toks) - 1, len(ops))
+    L = []
+    for k, (op, t) in enumerate(zip(ops, toks[1:])):
+        res, _, st = t.partition("[")
+        f = op.split(":")
+        n = len(L)
+        fs0 = cap - 2 * n - sum(CHDR + l for _, l in L)
+        if f[0] == "i":
+            i, cid, pl = int(f[1]), int(f[2]), _plen(int(f[3]))
+            if res == "ok%d" % i and i <= n:
+                L.insert(i, (cid, pl))
+            elif res == "err:InvalidInput" and (pl > maxp or i > n):
+                pass
+            elif res == "err:StorageFull" and CHDR + pl + 2 > fs0:
+                pass
+            else:
+                return ("operation %d %s answered %s (list of %d cells, free %d)" % (k, op, res, n, fs0), k)
+        elif f[0] == "r":
+            i = int(f[1])
+            if i < n and res == "c%d.%d" % L[i]:
+                L.pop(i)
+            elif (i == n and res == "panic") or (i > n and res == "err:InvalidInput"):
+                pass
+            else:
+                return ("operation %d %s answered %s" % (k, op, res), k)
+        elif f[0] == "p":
+            i, cid, pl = int(f[1]), int(f[2]), _plen(int(f[3]))
+            if i >= n:
+                if res != "panic":
+                    return ("operation %d %s answered %s" % (k, op, res), k)
+            elif res == "c%d.%d" % L[i]:
+                L[i] = (cid, pl)
+            elif res == "err:StorageFull" and fs0 + CHDR + L[i][1] < CHDR + pl:
+                pass
+            else:
+                return ("operation %d %s answered %s (old cell %s, free %d)" % (k, op, res, L[i], fs0), k)
+        elif f[0] == "D":
+            if res != "unit":
+                return ("operation %d defragment answered %s" % (k, res), k)
+        elif f[0] == "A":
+            if res != "cs" + "+".join("%d.%d" % c for c in L):
+                return ("operation %d drain answered %s" % (k, res[:120]), k)
+            L = []
+        head, _, body = st.rstrip("]").partition("|")
+        try:
+            fsp, fs = [int(x) for x in head.split(",")]
+            placed = [x.split(".") for x in body.split(",")] if body else []
+            got = [(int(x[1]), int(x[2])) for x in placed]
+            offs = [int(x[0]) for x in placed]
+        except (ValueError, IndexError):
+            return ("after operation %d %s the page cannot be read: %s" % (k, op, st[:120]), k)
+        if got != L:
+            return ("after operation %d %s the page holds %s, expected %s" % (k, op, got[:8], L[:8]), k)
+        if fs != cap - 2 * len(L) - sum(CHDR + l for _, l in L):
+            return ("after operation %d %s free space %d, expected %d" % (k, op, fs, cap - 2 * len(L) - sum(CHDR + l for _, l in L)), k)
+        ext = sorted((o, o + CHDR + l) for o, (_, l) in zip(offs, L))
+        if any(a[1] > b[0] for a, b in zip(ext, ext[1:])) or (ext and (ext[0][0] < fsp or ext[-1][1] > cap)) or fsp < 2 * len(L) or fsp > cap:
+            return ("after operation %d %s cells overlap or leave [free-space pointer, capacity): fsp %d, %s" % (k, op, fsp, ext[:6]), k)
+    return None
+
+
 class C10(Spec):
     id = "C10"
     design_ref = "7 (C10)"
-    model_targets = ["theories/Model/BtreeRun.vo", "theories/Proofs/BtreeProofs.vo"]
+    model_targets = ["theories/Model/BtreeRun.vo", "theories/Proofs/BtreeProofs.vo", "theories/Model/SlottedRun.vo", "theories/Proofs/SlottedProofs.vo"]
     prop_vo = "theories/Props/C10.vo"
     prop_module = "Props.C10"
-    theorems = ["C10_checker_sound", "C10_map_refinement"]
+    theorems = ["C10_checker_sound", "C10_map_refinement", "C10_page_refines_list", "C10_page_insert_complete"]
     rule = ("one tree per case through the facade: key types BIGUINT, BIGINT (negative values), TEXT (prefixes, empty, non-ASCII, "
             "different lengths) and (BIGINT, TEXT); page 4/8/16 KiB, cache 64-2000, minimum keys 3/4/8, siblings 1-3; 8-200 keys "
             "(7000 in one case per twenty, which gives height 3) inserted in random / ascending / descending / zigzag order, then "
@@ -360,7 +497,9 @@ class C10(Spec):
                      "and the abstract map judge their results"]
     streams = [Stream("trees", "tree", ["Base.Bytes", "Model.Btree", "Model.BtreeRun"], "run_tree_case", gen_cases,
                       oracle=oracle, canon_case=canon_case, rust_shards=16, shard=10, post=post, post_runner="check_dump_case", reference=True,
-                      nontrivial=lambda c, il: len(c.meta["keys"]) >= 30)]
+                      nontrivial=lambda c, il: len(c.meta["keys"]) >= 30),
+               Stream("slotted-page", "slot", ["Base.Bytes", "Model.Slotted", "Model.SlottedRun"], "run_slot_case", gen_slot,
+                      oracle=oracle_slot, nontrivial=lambda c, il: "err:StorageFull" in il or "D" in c.rust.split(" "))]
 
     def known_class(self, k, case):
         return k.get("class") in case.meta.get("classes", [])
